@@ -2103,6 +2103,10 @@ class Interp:
             if made is not None:
                 self.lazy_made = True
                 return made
+        if getattr(self.domain, "strict_calls", False) and any((dotted(dd) or "").split(".")[-1] == "contextmanager" for dd in getattr(func, "decorator_list", ())):
+            # (where the analysis can, it splices the manager's body around the with-block; a call that gets here would run that
+            #  body, both halves, before the block)
+            raise Undecided(f"the generator-based context manager {getattr(func, 'name', '?')} is used in a way the analysis cannot follow (in {getattr(caller, 'name', '?')})")
         raw = any(n_ == "<raw>" for n_, _ in closure_env)
         if raw:
             closure_env = tuple(kv for kv in closure_env if kv[0] != "<raw>")
